@@ -402,3 +402,15 @@ def r8(c):
     nm = q.sem(b, some[0].extra['a'][0])
     okn = nm.kind == 'call' and (nm.cs.callee or '').endswith('::to_string') and 'dns_name' in ''.join(str(y) for y in b.op_closure(nm.cs.args[0]))
     c.ob('subject-name/some-is-dns-name', okn, 'otherwise the name handed on is the configured dns_name', repr(nm), cs.loc())
+
+
+@rule('C18', 'R18.9', 'queue conditions keep their names across the C ABI: a full queue is ChannelFull / TooManyRequests, a closed one ChannelClosed / Shutdown (C10/R10.5)', needs=lambda P: P.has('rodbus::client::ffi_channel::FfiChannel::send'))
+def r9(c):
+    from rules import c10
+    c10.r5(c)
+
+
+@rule('C18', 'R18.10', 'the retry strategy configured through the C ABI is the Rust one with the same minimum and maximum delay, in that order (C14/R14.4)', needs=lambda P: P.has('rodbus_ffi::ffi::RetryStrategy::min_delay'))
+def r10(c):
+    from rules import c14
+    c14.r4(c)
